@@ -17,6 +17,18 @@ impl TriggerStats {
 
 impl ReadoutFlags {
 //@EXTRACT readout_flags_validate_fields
+
+//@EXTRACT readout_flags_validate_other
+
+    /// derive(Default) (dropped by the extraction): only used to build a dummy value
+    #[verifier::external_body]
+    fn default() -> (r: Self) { unimplemented!() }
+}
+
+//@EXTRACT alpide_stats_struct
+
+impl AlpideStats {
+//@EXTRACT alpide_stats_validate_other
 }
 
 } // verus!
